@@ -74,6 +74,15 @@ def gen(rng, tier):
                     z = C01.recv(rng, prec=rng.choice([0, 1, 3, 20]), mode=mode)
                     x = cls_values(rng, cx)
                     yield dict(family="class-table-unary", vars=[z, x], ops=["%s %s" % (op, rng.choice(["0 1", "1 1"]))])
+    # exhaustive: signed zeros (and infinities) x modes x every aliasing shape
+    for op in ("Add", "Sub", "Mul", "Quo"):
+        for cx, cy in itertools.product((0, 2, 3, 5), repeat=2):
+            for mode in range(6):
+                for shape in ("0 1 2", "1 1 2", "2 1 2", "0 2 1", "1 2 1", "2 2 1"):
+                    x, y = cls_values(rng, cx), cls_values(rng, cy)
+                    x.mode = y.mode = mode
+                    z = zero(rng.randint(0, 1), prec=rng.choice([0, 3]), mode=mode)
+                    yield dict(family="zero-inf-alias-exhaustive", vars=[z, x, y], ops=["%s %s" % (op, shape)])
     # x + x, x - x with the same variable twice
     for _ in range(100 * reps):
         x = cls_values(rng, rng.randint(0, 5), ADD_GROUPS[0])
